@@ -298,3 +298,14 @@ check("C35", "internal/zzverif/c35",
       floors={"any": {"blocks_accepted": 2000, "blocks_rejected": 500, "verdicts_good": 500, "verdicts_bad": 500, "verdicts_wonky": 500, "mutation_vote-split": 200, "mutation_already-judged": 50,
                       "pending_reports_cleared": 100, "pending_reports_judged_good_kept": 50, "blocks_adding_to_nonempty_records": 1000}},
       assumptions=[STANDIN_VRF])
+
+check("C34", "internal/zzverif/c34",
+      rule="case = one history of 3..12 blocks (tiny parameters; full parameters in every 100th history) through statistics.UpdateValidatorActivityStatistics on the blockchain singleton: slot gaps 1..3, to the first slot of the next epoch, exactly one epoch, more than two epochs; random author; 0..3 tickets, 0..3 preimages (requesters from 6 service ids incl. 0 and 2^32-1, sizes 0..5000), "
+           "0..C guarantees (1..3 digests each with random refine loads, 2..3 signer indices, slot in the current or the previous rotation), assurances by up to 8 validators with random bitfields, 0..C newly available reports (export counts around 64/128 multiples), random accumulation statistics; validator key sets kappa'/lambda' partly shared and rotated at epoch changes. "
+           "After every block posterior pi (current and previous validator records, core records, service records) is compared field by field with a model of GP 13.3-13.16; the model's pi is carried to the next block. distinct_nontrivial = distinct histories",
+      technique="reference-model monitor over generated block histories at the statistics STF boundary (blockchain singleton), run under the Go race detector",
+      level_text="Every block of generated histories is compared with an independent model of the statistics equations; the race detector watches the three concurrent updaters. Held = no divergence and no race report on what was explored.",
+      note="Reporter set per GP 11.26/13.5: the Ed25519 keys of guarantee signers taken from kappa' (same rotation, or previous rotation inside the same epoch) or lambda' (previous rotation in the previous epoch); no offenders are present, histories start at tau >= E + R so that tau' - R never underflows (U12).",
+      shards=(8, 16), race=True, env={"JAM_FUZZ": "1"},
+      floors={"any": {"blocks": 3000, "blocks_at_an_epoch_change": 500, "guarantees": 1500, "guarantees_from_the_previous_rotation": 300, "assurances": 5000, "preimages": 3000, "blocks_with_available_reports": 1000, "service_records": 5000}},
+      assumptions=[STANDIN_VRF])
